@@ -189,3 +189,188 @@ theorem alpha_body_aux (ρ : Name → Name) (hρ : ∀ a b, ρ a = ρ b → a = 
         rw [g1, t1]
 
 end Elk.Hygiene
+
+namespace Elk.Hygiene
+
+/-! ### bodies with `unhygienic` islands, under the no-capture hypothesis -/
+
+/-- `D` = names the expansion may declare, `U` = names that occur inside `unhygienic` islands -/
+def okIslands (D U : Name → Prop) : Nat → List Tm → Prop
+  | 0, _ => True
+  | _ + 1, [] => True
+  | fuel + 1, t :: rest =>
+    (match t with
+     | .decl n => D n
+     | .read _ => True
+     | .uread n => U n
+     | .block _ body => okIslands D U fuel body) ∧ okIslands D U fuel rest
+
+/-- an environment of the expansion: linked to its parent and binding only names of `D` -/
+def FrameOk (D : Name → Prop) (f : Frame) : Prop := f.hasParent = true ∧ ∀ p ∈ f.locals, D p.1
+
+theorem mem_insert_name (n : Name) (l : LocalId) (ls : List (Name × LocalId)) (p : Name × LocalId)
+    (h : p ∈ insert n l ls) : p.1 = n ∨ p ∈ ls := by
+  induction ls with
+  | nil => simp [insert] at h; left; rw [h]
+  | cons q rest ih =>
+    obtain ⟨m, x⟩ := q
+    by_cases hm : m = n
+    · simp only [insert, hm, if_true, List.mem_cons] at h
+      rcases h with h | h
+      · left; rw [h]
+      · right; exact List.mem_cons_of_mem _ h
+    · simp only [insert, hm, if_false, List.mem_cons] at h
+      rcases h with h | h
+      · right; rw [h]; exact List.mem_cons_self
+      · rcases ih h with h' | h'
+        · left; exact h'
+        · right; exact List.mem_cons_of_mem _ h'
+
+theorem lookup_none_of_names (n : Name) (ls : List (Name × LocalId)) (h : ∀ p ∈ ls, p.1 ≠ n) :
+    lookup n ls = none := by
+  induction ls with
+  | nil => rfl
+  | cons q rest ih =>
+    obtain ⟨m, x⟩ := q
+    have : m ≠ n := h (m, x) (by simp)
+    simp only [lookup, this, if_false]
+    exact ih (fun p hp => h p (List.mem_cons_of_mem _ hp))
+
+theorem FrameOk.insert {D : Name → Prop} {f : Frame} (hf : FrameOk D f) (n : Name) (k : LocalId) (hn : D n) :
+    FrameOk D { f with locals := Elk.Hygiene.insert n k f.locals } := by
+  refine ⟨hf.1, ?_⟩
+  intro p hp
+  rcases mem_insert_name n k f.locals p hp with h | h
+  · rw [h]; exact hn
+  · exact hf.2 p h
+
+/-- the location an unhygienic lookup finds does not depend on the counters -/
+theorem resolveFrom_loc_indep (n : Name) (s : Stack) (d d' : Nat) (k k' : Bool) :
+    (resolveFrom n true s d k).map (·.loc) = (resolveFrom n true s d' k').map (·.loc) := by
+  induction s generalizing d d' k k' with
+  | nil => rfl
+  | cons f rest ih =>
+    simp only [resolveFrom]
+    cases lookup n f.locals with
+    | some l => rfl
+    | none =>
+      simp only []
+      split
+      · rfl
+      · split
+        · exact ih _ _ _ _
+        · rfl
+
+/-- an unhygienic lookup of a name the expansion's environments do not bind returns the caller's binding -/
+theorem resolve_unhyg_through (n : Name) (m outer : Stack)
+    (hp : ∀ f ∈ m, f.hasParent = true) (hn : ∀ f ∈ m, lookup n f.locals = none) :
+    (resolve n true (m ++ outer)).map (·.loc) = (resolve n true outer).map (·.loc) := by
+  simp only [resolve]
+  rw [resolveFrom_unhyg_skip n m outer 0 false hp hn]
+  exact resolveFrom_loc_indep n outer _ _ _ _
+
+theorem alpha_islands_aux (ρ : Name → Name) (hρ : ∀ a b, ρ a = ρ b → a = b) (D U : Name → Prop)
+    (hDU : ∀ n, D n → ¬ U n) (hρU : ∀ n, D n → ¬ U (ρ n)) (fuel : Nat) :
+    ∀ (B : List Tm) (inner : Stack) (b : Frame) (outer : Stack) (k : Nat),
+      b.typ = .macroBoundary → okIslands D U fuel B → (∀ f ∈ inner ++ [b], FrameOk D f) →
+      (checkTms fuel (renameTms ρ fuel B) (inner.map (Frame.rename ρ) ++ Frame.rename ρ b :: outer) k).1 =
+        (checkTms fuel B (inner ++ b :: outer) k).1 ∧
+      (checkTms fuel (renameTms ρ fuel B) (inner.map (Frame.rename ρ) ++ Frame.rename ρ b :: outer) k).2.2 =
+        (checkTms fuel B (inner ++ b :: outer) k).2.2 ∧
+      ∃ (inner2 : Stack) (b2 : Frame), b2.typ = .macroBoundary ∧ inner2.length = inner.length ∧
+        (∀ f ∈ inner2 ++ [b2], FrameOk D f) ∧
+        (checkTms fuel B (inner ++ b :: outer) k).2.1 = inner2 ++ b2 :: outer ∧
+        (checkTms fuel (renameTms ρ fuel B) (inner.map (Frame.rename ρ) ++ Frame.rename ρ b :: outer) k).2.1 =
+          inner2.map (Frame.rename ρ) ++ Frame.rename ρ b2 :: outer := by
+  induction fuel with
+  | zero =>
+    intro B inner b outer k hb _ hf
+    exact ⟨rfl, rfl, inner, b, hb, rfl, hf, rfl, rfl⟩
+  | succ n ih =>
+    intro B inner b outer k hb hok hf
+    cases B with
+    | nil => exact ⟨rfl, rfl, inner, b, hb, rfl, hf, rfl, rfl⟩
+    | cons t rest =>
+      cases t with
+      | decl x =>
+        obtain ⟨hx, hr⟩ : D x ∧ okIslands D U n rest := hok
+        cases inner with
+        | nil =>
+          have hf' : ∀ f ∈ ([] : Stack) ++ [{ b with locals := insert x k b.locals }], FrameOk D f := by
+            intro f h; simp at h; rw [h]; exact (hf b (by simp)).insert x k hx
+          have := ih rest [] { b with locals := insert x k b.locals } outer (k + 1) hb hr hf'
+          simp only [List.map_nil, List.nil_append, renameTms, checkTms] at this ⊢
+          rw [← Frame.rename_insert ρ hρ x k b]
+          exact this
+        | cons f fs =>
+          have hf' : ∀ g ∈ ({ f with locals := insert x k f.locals } :: fs) ++ [b], FrameOk D g := by
+            intro g h
+            simp only [List.cons_append, List.mem_cons] at h
+            rcases h with h | h
+            · rw [h]; exact (hf f (by simp)).insert x k hx
+            · exact hf g (by simp [h])
+          have := ih rest ({ f with locals := insert x k f.locals } :: fs) b outer (k + 1) hb hr hf'
+          simp only [List.map_cons, List.cons_append, renameTms, checkTms, List.length_cons] at this ⊢
+          rw [← Frame.rename_insert ρ hρ x k f]
+          exact this
+      | read x =>
+        obtain ⟨_, hr⟩ : True ∧ okIslands D U n rest := hok
+        obtain ⟨h1, h2, h3⟩ := ih rest inner b outer k hb hr hf
+        have ha : resolve (ρ x) false (inner.map (Frame.rename ρ) ++ Frame.rename ρ b :: outer) =
+            resolve x false (inner ++ b :: outer) := by
+          have e2 := resolveFrom_rename ρ hρ x inner b outer hb 0 false
+          simp only [resolve]; rw [e2]
+        simp only [renameTms, checkTms]
+        refine ⟨?_, h2, h3⟩
+        rw [ha, h1]
+      | uread x =>
+        obtain ⟨hx, hr⟩ : U x ∧ okIslands D U n rest := hok
+        obtain ⟨h1, h2, h3⟩ := ih rest inner b outer k hb hr hf
+        -- neither the expansion's environments nor their renamed versions bind x
+        have hp1 : ∀ f ∈ inner ++ [b], f.hasParent = true := fun f h => (hf f h).1
+        have hn1 : ∀ f ∈ inner ++ [b], lookup x f.locals = none := by
+          intro f h
+          exact lookup_none_of_names x f.locals (fun p hp e => hDU p.1 ((hf f h).2 p hp) (e ▸ hx))
+        have hp2 : ∀ f ∈ inner.map (Frame.rename ρ) ++ [Frame.rename ρ b], f.hasParent = true := by
+          intro f h
+          simp only [List.mem_append, List.mem_map, List.mem_singleton] at h
+          rcases h with ⟨g, hg, rfl⟩ | rfl
+          · exact (hf g (by simp [hg])).1
+          · exact (hf b (by simp)).1
+        have hn2 : ∀ f ∈ inner.map (Frame.rename ρ) ++ [Frame.rename ρ b], lookup x f.locals = none := by
+          intro f h
+          simp only [List.mem_append, List.mem_map, List.mem_singleton] at h
+          rcases h with ⟨g, hg, rfl⟩ | rfl
+          · exact lookup_rename_fresh ρ x g.locals (fun p hp e => hρU p.1 ((hf g (by simp [hg])).2 p hp) (e ▸ hx))
+          · exact lookup_rename_fresh ρ x b.locals (fun p hp e => hρU p.1 ((hf b (by simp)).2 p hp) (e ▸ hx))
+        have e1 := resolve_unhyg_through x (inner ++ [b]) outer hp1 hn1
+        have e2 := resolve_unhyg_through x (inner.map (Frame.rename ρ) ++ [Frame.rename ρ b]) outer hp2 hn2
+        simp only [List.append_assoc, List.singleton_append] at e1 e2
+        simp only [renameTms, checkTms]
+        refine ⟨?_, h2, h3⟩
+        rw [e2, e1, h1]
+      | block ty body =>
+        obtain ⟨hbody, hrest⟩ : okIslands D U n body ∧ okIslands D U n rest := hok
+        have hnew : FrameOk D ⟨ty, true, []⟩ := ⟨rfl, by intro p hp; cases hp⟩
+        have hf1 : ∀ f ∈ (⟨ty, true, []⟩ :: inner) ++ [b], FrameOk D f := by
+          intro f h
+          simp only [List.cons_append, List.mem_cons] at h
+          rcases h with h | h
+          · rw [h]; exact hnew
+          · exact hf f h
+        obtain ⟨g1, g2, inner2, b2, hb2, hl2, hf2, e1, e2⟩ :=
+          ih body (⟨ty, true, []⟩ :: inner) b outer k hb hbody hf1
+        obtain ⟨fa, sa, _, _⟩ := checkTms_shape n body ⟨ty, true, []⟩ (inner ++ b :: outer) k
+        obtain ⟨fb, sb, _, _⟩ := checkTms_shape n (renameTms ρ n body) ⟨ty, true, []⟩
+          (inner.map (Frame.rename ρ) ++ Frame.rename ρ b :: outer) k
+        have hren : Frame.rename ρ ⟨ty, true, []⟩ = ⟨ty, true, []⟩ := rfl
+        simp only [List.map_cons, List.cons_append, hren] at g1 g2 e1 e2
+        have := ih rest inner b outer (checkTms n body (⟨ty, true, []⟩ :: (inner ++ b :: outer)) k).2.2 hb hrest hf
+        simp only [renameTms, checkTms]
+        rw [sa, sb, g2] at *
+        simp only [List.tail_cons]
+        obtain ⟨t1, t2, t3⟩ := this
+        refine ⟨?_, t2, t3⟩
+        rw [g1, t1]
+
+end Elk.Hygiene
